@@ -17,6 +17,7 @@ var commentForms = []string{
 	"   leading and trailing blanks   ",
 	"\ttabbed\tcomment ",
 	" says \"quoted\" and \\backslash\\ and `backtick` and 100%d percent",
+	" names the package manager used on the node, the import path and the func to call; type of package",
 	" unicode é→ and a very long line " + "word word word word word word word word word word word word word word word word word word word word",
 }
 
